@@ -1,14 +1,26 @@
 """C16 -- every problem is a renderable pybtex error, the same in all reporting modes.
 
-Five driver ops (lean/PybtexModel/Drv/C16.lean):
+Seven driver ops (lean/PybtexModel/Drv/C16.lean):
 
 errhist     histories over {enter, exit, abort-inside, report k, set_strict b} on the REAL
             `pybtex.errors` module (twice: real `with` blocks, and the context-manager protocol
             called by hand), module globals always restored;
+errfree     the same module with the context managers left in ANY order (exit the k-th open one):
+            the free-order machine of the model follows the code outside the `with` discipline too;
+            restoration is judged only on LIFO histories (the quantifier of the property);
 errrender   one instance of an error class: str / get_context / get_filename / format_error;
 errclasses  the PybtexError subclasses found by importing every module of the package;
-errmodes    a real input (.bib / .aux / .bst / name / plugin lookup) processed in capture,
-            non-strict, strict mode and through CommandLine.__call__;
+errmodes    a real input processed in capture, non-strict, strict mode and through CommandLine.__call__:
+            .bib / .aux / .bst / name / plug-in lookup; YAML and BibTeXML documents; runs of the BibTeX engine
+            (generated .bst programs with run-time faults, the real styles) and of the Python engine on a small
+            database x {unknown entry type, missing field, missing citation, dangling crossref, syntax error ...};
+            convert / format_database / make_bibliography; the inputs of the corruption generators of C10 / C15 /
+            C20.  Where a reader model exists (C10 .bib reader, C15 .bst parser, C20 .aux reader, C03 interpreter)
+            the request carries the input (`src`) and the driver computes the EXPECTED problems from that model
+            (reply spec.expected): clause every_problem_reported.  Any non-pybtex exception is a failing input;
+errcli      the three real command lines (pybtex, pybtex-convert, pybtex-format) run in-process with an argv
+            (--strict in every position, other / rejected / plug-in options, wrong argument counts, same input and
+            output, several runs in one interpreter); the model is `cliMain` = set_strict_mode(False); options; run;
 fmtchars    the letters of a `format.name$` name part (BibTeXNameFormatError unreachable).
 """
 import contextlib
@@ -33,11 +45,11 @@ THEOREMS = {
     'C16_render_total_other_classes': 'only TokenRequired carries a well-formedness condition (parser state in range); every other class renders unconditionally',
     'C16_render_filename': 'with a file name every rendered line starts with "<file>: " and the last line is the prefixed message',
     'C16_render_no_filename': 'without a file name the lines are exactly context ++ [prefix ++ message]',
-    'C16_every_class_listed': 'every error value belongs to a class of the list the harness compares with the classes enumerated from the source',
+    'C16_class_list_exact': 'the class list the harness compares with the PybtexError subclasses enumerated from the source is exactly the set of classes the model has values (a rendering) for: nothing listed without rendering, nothing rendered that is not listed',
     'C16_mode_independent': 'for a computation reporting e1..en: capture collects exactly [e1..en] and restores the state; non-strict prints the same n warnings in order, error_code = 2 iff n > 0; strict raises e1 first, changes nothing, and its problems are a prefix of the others',
     'C16_warning_text': 'the warning printed in non-strict mode is the rendering with the WARNING prefix, defined for every error',
     'C16_exit_status': 'command line: status 0 iff nothing reported, 2 iff only warnings, 1 iff a pybtex error escaped; stderr = the warnings in order then the fatal error',
-    'C16_capture_restores': 'after ANY balanced pattern of nested / aborted capture contexts, from ANY configuration: enclosing frames untouched, captured_errors back to what it was (+ the reports made directly at that level), strict = last set_strict_mode, error_code unchanged unless a warning was printed',
+    'C16_capture_restores': '[contexts left innermost first = with blocks] after ANY balanced pattern of nested / aborted capture contexts, from ANY configuration: enclosing frames untouched, captured_errors back to what it was (+ the reports made directly at that level), strict = last set_strict_mode, error_code unchanged unless a warning was printed',
     'C16_capture_restores_outside': 'outside any context captured_errors is None again after the contexts have unwound',
     'C16_capture_nested': 'nested contexts compose: the enclosing context has collected exactly its direct reports, nothing was printed or raised meanwhile, and it goes on collecting',
     'C16_capture_context': 'one context (left normally or by an exception) yields exactly the reports made directly in its body and restores captured_errors and the enclosing frames exactly',
@@ -49,8 +61,23 @@ THEOREMS = {
     'C16_location_stable': 'errors are built from the mutable parse state at the moment of the report and keep that location whatever follows',
     'C16_location_snapshot': 'file name and line of .aux and scanner errors are those of the parse state they were built from',
     'C16_no_foreign_exception': 'format letters accepted by check_format_chars are accepted by NamePart (BibTeXNameFormatError unreachable, format char in flvj); SkipEntry does not leave parse_bibliography',
+    'C16_capture_LIFO_embedding': 'the LIFO assumption of the capture theorems is an embedding: a history of with blocks is the free-order history whose exits leave the most recently entered manager, and the free-order machine (each manager keeps its own value to restore) does on it exactly what the stack machine does',
+    'C16_capture_nonLIFO_neg': 'NOT LIFO (enter A, enter B, leave A, leave B): every context has been left but captured_errors is a list for ever, later problems are swallowed -- "leaving capture mode always restores" holds for with blocks only',
+    'C16_bib_reader_exits_listed': 'every exit of the .bib reader model (C10) -- each problem reported, the error raised in strict mode -- for EVERY text / mode / wanted set / macro table is an exception object of one of 8 listed PybtexError subclasses; nothing is lost reading the run as a computation; class and str(error) do not depend on what the reader model leaves out',
+    'C16_bib_reader_mode_independent': 'mode independence of the .bib reader NOT by construction: what the reader model raises in its own strict mode is what the abstract computation built from its continue-mode run says strict mode raises (head of the collected list, else the same final error), for every text',
+    'C16_bst_parser_exits_listed': 'every exit of the .bst parser model (C15), through parse_string / parse_stream / parse_file: the program, or a PrematureEOF / TokenRequired / PybtexSyntaxError of an over-long integer (never a model-only outcome); nothing is reported, so the run is the same computation in every mode',
+    'C16_aux_reader_exits_listed': 'every exit of the .aux reader model (C20) over any file system with acyclic inclusion: reports are AuxDataErrors that render exactly as the reader model says (str, context, file name; well-formed for render_total), the fatal error is an AuxDataError or the PybtexError of a file that cannot be opened',
+    'C16_main_strict_option': 'the real main() with --strict anywhere among accepted options, from ANY module state: the first problem is the only thing on stderr (ERROR prefix), status 1, error_code untouched; without problems the status is what error_code was',
+    'C16_main_exit_status': 'main() without --strict is the non-strict run whatever strict was before and from any error_code: warnings in order then the fatal error; status 1 / 2 / previous error_code; problems ALWAYS make the status non-zero; a command line that is not accepted (wrong argument count, rejected option, unknown plug-in) never ends with status 0',
+    'C16_exit_status_sticky_neg': 'error_code is never cleared: a second main() in the same interpreter after a run with warnings ends with status 2 on a clean input ("0 iff nothing reported" needs a fresh process); strict does not leak, every main() resets it',
+    'C16_bst_run_end_partial': 'a BibTeX-engine run (C03 interpreter model on the lazily parsed program) is classified as a non-pybtex exception ONLY where that model says Python raises one (IErr.internal), as unknown ONLY on fuel exhaustion; a .bst syntax error is the error of the C15 parser model (PrematureEOF / TokenRequired); a finished run has a program that parses completely',
+    'C16_bst_run_foreign_neg': 'the recorded finding C16-bst-illformed-program: "a" #1 +, EXECUTE {cite$}, ITERATE {undefined} have no pybtex outcome (TypeError / AttributeError / KeyError in the Python code)',
 }
-RULE = ('errhist: every history of <=N operations (N=5 quick, 7 thorough) over {enter, exit, abort, report, set_strict T/F} in which no '
+RULE = ('errmodes also: every .bst run-time fault of a table x 2 databases, real styles and the 4 Python styles x every fault entry x 2 citation '
+        'lists through the BibTeX and the Python engine; every truncation + random corruptions of a YAML and a BibTeXML document; convert / '
+        'format_database / make_bibliography; inputs of the C10 / C15 / C20 generators (expected problems computed by the driver from the '
+        'reader models); errcli: the three real mains in-process x argv patterns; errfree: every history of <=N operations with exits in any order; '
+        'errhist: every history of <=N operations (N=5 quick, 7 thorough) over {enter, exit, abort, report, set_strict T/F} in which no '
         'exit precedes its enter, closed with the missing exits, from strict and non-strict start, + seeded random longer ones; '
         'errrender: for each class found in the source a grid of constructor arguments (messages, file names str/bytes/empty/None, '
         'line numbers, every in-range parser position of every text over a small alphabet of line separators) + random; '
@@ -62,11 +89,19 @@ TRUSTED = ['str.splitlines separators, repr() of str (exact below U+0100 and on 
            'byte file names are decoded by the harness (sys.getfilesystemencoding) before they reach the model',
            'stderr plumbing (pybtex.io.stderr), sys.exit and optparse are observed, not modelled',
            'the computation abstraction: the sequence of report_error calls of a run does not depend on the reporting mode '
-           '(report_error returns nothing); checked on the real inputs, not proved of the parsers']
+           '(report_error returns nothing); proved of the .bib reader model (C16_bib_reader_mode_independent), trivial for the .bst parser '
+           '(no reports); for the .aux reader, the engines and the other entry points checked on the real inputs, not proved',
+           'optparse is reduced to what it does to the error channel (--strict callback, rejected option -> status 2, --help/--version -> 0, '
+           'exception from a load_plugin option); universal-newline translation of text files is done by the harness before a text reaches a reader model',
+           'the expected problems of an input are computed by the reader models of C10 / C15 / C20 / C03 (tied to the code by those properties\' own checks)']
 ASSUMPTIONS = ['TokenRequired instances come from parser states in which get_error_context does not index out of range '
                '(CtxInfo.WF: Scanner 1 <= lineno <= number of lines; LowLevelParser command_start < pos, inside the text)',
-               'capture contexts are left in LIFO order (with-statement discipline)',
-               'the tree carries proposed_fixes C16-1, C16-2, C20-1, C20-2 (the model follows the fixed behaviour)']
+               'capture contexts are left in LIFO order (with-statement discipline) -- outside it restoration FAILS (C16_capture_nonLIFO_neg); '
+               'the free-order machine is still tied to the code (errfree)',
+               'exit status "0 iff nothing reported" is about a fresh interpreter (error_code is sticky: C16_exit_status_sticky_neg)',
+               '.bst programs are well-formed in the sense of the C03 model (no IErr.internal): otherwise recorded finding C16-bst-illformed-program',
+               'entry types do not coincide with the name of a format_* helper of the Python style (@title, @url ...: legacy fall-back, see proposed_fixes/C16-3.md)',
+               'the tree carries proposed_fixes C16-1, C16-2, C20-1, C20-2 and C16-3 ... C16-7 (the model follows the fixed behaviour)']
 
 WARNING = 'WARNING: '
 ERROR = 'ERROR: '
@@ -159,6 +194,8 @@ def build_error(spec, fn_bytes=False):
             if i['kind'] == 'lowLevel':
                 p.command_start = len(p.text)
         return scanner.TokenRequired(spec['description'], p), later
+    if cls == 'AuxDataError' and spec.get('noctx'):
+        return auxfile.AuxDataError(spec['msg']), later       # the constructor's own default: no context
     if cls == 'AuxDataError':
         ctx = auxfile.AuxDataContext(fn)
         ctx.lineno = spec.get('lineno')
@@ -188,7 +225,7 @@ def spec_of_exception(e, sanitize=lambda s: s):
     if isinstance(fn, str):
         fn = sanitize(fn)
     bad = {'cls': cls, 'unparsed': str(msg)}
-    if not isinstance(msg, str):
+    if not isinstance(msg, str) or not (fn is None or isinstance(fn, str)):
         return bad
     if cls in ('PybtexError', 'BibliographyDataError', 'BibTeXError', 'ConvertError'):
         return {'cls': cls, 'msg': sanitize(msg), 'filename': fn}
@@ -271,19 +308,28 @@ def render_record(e, prefix=ERROR, sanitize=lambda s: s):
 
 @contextlib.contextmanager
 def fresh_errors(strict=True):
-    """Run with a fresh `pybtex.errors` state and a private stderr; ALWAYS put everything back."""
+    """Run with a fresh `pybtex.errors` state, private stderr / stdout (pybtex.io and sys) and the current
+    directory remembered; ALWAYS put everything back."""
     from pybtex import errors
     import pybtex.io
     saved = (errors.strict, errors.error_code, errors.captured_errors, pybtex.io.stderr, sys.argv)
+    saved_out = (pybtex.io.stdout, sys.stdout, sys.stderr)
+    cwd = os.getcwd()
     buf = io.StringIO()
     try:
         errors.error_code = 0
         errors.captured_errors = None
         errors.set_strict_mode(strict)
         pybtex.io.stderr = buf
+        pybtex.io.stdout = io.StringIO()
+        sys.stdout = io.StringIO()
+        sys.stderr = io.StringIO()
         yield errors, buf
     finally:
         errors.strict, errors.error_code, errors.captured_errors, pybtex.io.stderr, sys.argv = saved
+        pybtex.io.stdout, sys.stdout, sys.stderr = saved_out
+        if os.getcwd() != cwd:
+            os.chdir(cwd)
 
 
 def _take(buf):
@@ -299,6 +345,10 @@ def _take(buf):
 
 class _Abort(Exception):
     pass
+
+
+class _Unwind(BaseException):
+    """leaves the nested `with` blocks of _run_with after the context manager itself has raised"""
 
 
 class _Hist(object):
@@ -364,14 +414,19 @@ def _run_manual(case):
                     h.note(None)
                 elif o in ('exit', 'abort'):
                     cm, lst = stack.pop()
-                    if o == 'exit':
-                        swallowed = cm.__exit__(None, None, None)
-                    else:
-                        try:
-                            raise _Abort()
-                        except _Abort as x:
-                            swallowed = cm.__exit__(type(x), x, x.__traceback__)
-                    obs = {'left': h.idl(lst)}
+                    obs = {}
+                    swallowed = False
+                    try:
+                        if o == 'exit':
+                            swallowed = cm.__exit__(None, None, None)
+                        else:
+                            try:
+                                raise _Abort()
+                            except _Abort as x:
+                                swallowed = cm.__exit__(type(x), x, x.__traceback__)
+                    except BaseException as x:  # noqa -- what the implementation does is an observation, never a harness failure
+                        obs['exit_raised'] = _kind(x)
+                    obs['left'] = h.idl(lst)
                     if swallowed:
                         obs['swallowed'] = True
                     h.note(obs)
@@ -414,12 +469,20 @@ def _run_with(case):
                                 raise _Abort()
                     except _Abort:
                         pass
+                    except _Unwind:
+                        raise
+                    except BaseException as x:  # noqa -- raised by the context manager itself: recorded, the history stops here
+                        h.note({'left': h.idl(lst), 'exit_raised': _kind(x)})
+                        raise _Unwind()
                     h.note({'left': h.idl(lst)})
                     i += 1
                 else:
                     return i
             return i
-        block(0)
+        try:
+            block(0)
+        except _Unwind:
+            pass
         return h.result(0)
 
 
@@ -439,33 +502,83 @@ def _depth_profile(ops):
 # errmodes: real inputs
 # ----------------------------------------------------------------------------------------------
 
+def _write(tmp, name, text):
+    path = os.path.join(tmp, *name.split('/'))
+    if '/' in name:
+        os.makedirs(os.path.dirname(path), exist_ok=True)
+    with open(path, 'w', encoding='utf-8', newline='') as f:
+        f.write(text)
+    return path
+
+
+def _aux_content(lines, nl):
+    """the text of an .aux file of the C20 generators (list of lines -> file content)"""
+    if not lines:
+        return ''
+    t = '\n'.join(lines)
+    if nl or lines[-1] == '':
+        t += '\n'
+    return t
+
+
+BST_ENTRY = {'bst': 'string', 'bst_stream': 'stream', 'bst_file': 'file'}
+READER_FORMAT = {'yaml': 'yaml', 'yamlfile': 'yaml', 'bibtexml': 'bibtexml', 'xmlfile': 'bibtexml'}
+
+
 def _computation(case, tmp):
     """() -> None: the pybtex call of the case (reads user input, reports problems)."""
-    kind, text = case['kind'], case['text']
+    kind, text = case['kind'], case.get('text')
     if kind == 'bib':
         def run():
             from pybtex.database import parse_string
             parse_string(text, 'bibtex')
     elif kind == 'bibfile':
-        path = os.path.join(tmp, 'input.bib')
-        with open(path, 'w', encoding='utf-8', newline='') as f:
-            f.write(text)
+        path = _write(tmp, 'input.bib', text)
 
         def run():
             from pybtex.database import parse_file
             parse_file(path, 'bibtex')
+    elif kind in ('yaml', 'bibtexml'):
+        def run():
+            from pybtex.database import parse_string
+            parse_string(text, READER_FORMAT[kind])
+    elif kind in ('yamlfile', 'xmlfile'):
+        path = _write(tmp, 'input.yaml' if kind == 'yamlfile' else 'input.xml', text)
+
+        def run():
+            from pybtex.database import parse_file
+            parse_file(path)            # format guessed from the suffix
     elif kind == 'aux':
-        path = os.path.join(tmp, 'input.aux')
-        with open(path, 'w', encoding='utf-8', newline='') as f:
-            f.write(text)
+        path = _write(tmp, 'input.aux', text)
 
         def run():
             from pybtex import auxfile
             auxfile.parse_file(path, 'utf-8')
+    elif kind == 'auxfs':
+        seen = set()
+        for name, lines in case['files']:
+            if name not in seen:
+                seen.add(name)
+                _write(tmp, name, _aux_content(lines, case.get('nl', True)))
+
+        def run():
+            from pybtex import auxfile
+            os.chdir(tmp)
+            auxfile.parse_file(case['top'])
     elif kind == 'bst':
         def run():
             from pybtex.bibtex import bst
             list(bst.parse_string(text))
+    elif kind == 'bst_stream':
+        def run():
+            from pybtex.bibtex import bst
+            list(bst.parse_stream(io.StringIO(text)))
+    elif kind == 'bst_file':
+        path = _write(tmp, 'input.bst', text)
+
+        def run():
+            from pybtex.bibtex import bst
+            list(bst.parse_file(path, encoding='utf-8'))
     elif kind == 'name':
         def run():
             from pybtex.database import Person
@@ -480,6 +593,36 @@ def _computation(case, tmp):
         def run():
             from pybtex.plugin import find_plugin
             find_plugin(group, name)
+    elif kind == 'bibtex_run':
+        _write(tmp, 'style.bst', case['bst'])
+
+        def run():
+            from pybtex.bibtex import BibTeXEngine
+            BibTeXEngine().format_from_strings(list(case['bibs']), style=os.path.join(tmp, 'style'), citations=list(case['citations']),
+                                               min_crossrefs=case.get('min_crossrefs', 2))
+    elif kind == 'python_run':
+        def run():
+            from pybtex import PybtexEngine
+            PybtexEngine().format_from_strings(list(case['bibs']), style=case['style'], citations=list(case['citations']),
+                                               min_crossrefs=case.get('min_crossrefs', 2), output_backend=case.get('backend'))
+    elif kind in ('convert', 'format', 'make_bibliography'):
+        for name, content in case['files']:
+            _write(tmp, name, content)
+
+        def run():
+            os.chdir(tmp)
+            if kind == 'convert':
+                from pybtex.database.convert import convert
+                convert(case['from'], case['to'])
+            elif kind == 'format':
+                from pybtex.database.format import format_database
+                format_database(case['from'], case['to'], style=case.get('style'))
+            elif case['engine'] == 'bibtex':
+                from pybtex.bibtex import BibTeXEngine
+                BibTeXEngine().make_bibliography(case['aux'])
+            else:
+                from pybtex import PybtexEngine
+                PybtexEngine().make_bibliography(case['aux'])
     else:
         raise ValueError(kind)
     return run
@@ -496,11 +639,35 @@ def _raised(x, sanitize):
     return _kind(x)
 
 
+def _scratch_base():
+    """A memory-backed directory when there is one (file creation dominates the run time of the file kinds)."""
+    shm = '/dev/shm'
+    if os.path.isdir(shm) and os.access(shm, os.W_OK | os.X_OK):
+        return shm
+    return None
+
+
+_BASE = _scratch_base()
+
+
+def _mktmp():
+    tmp = tempfile.mkdtemp(prefix='verif-c16-', dir=_BASE)
+    real = os.path.realpath(tmp)
+    assert not real.startswith('/repo') and not real.startswith(compat.VERIF + os.sep), real
+    return tmp
+
+
+def _cls_str(x):
+    """[class, str(error)] of a pybtex error (what the reader models predict)"""
+    s = _call(lambda: str(x))
+    return [type(x).__name__, s]
+
+
 def _run_modes(case, want='all'):
     """Process the input in the three modes (+ command line).  `want='specs'`: only the capture run,
     returning the errspecs of what was reported (used to build the driver request)."""
     from pybtex.exceptions import PybtexError
-    tmp = tempfile.mkdtemp(prefix='verif-c16-')
+    tmp = _mktmp()
     sanitize = lambda s: s.replace(tmp, 'TMPDIR')  # noqa: E731
     try:
         run = _computation(case, tmp)
@@ -523,6 +690,8 @@ def _run_modes(case, want='all'):
             warn = [_call(lambda e=e: errors.format_error(e, WARNING)) for e in collected]
             out['_warnings'] = [sanitize(w) if isinstance(w, str) else w for w in warn]
             out['_stderr_capture'] = sanitize(_take(buf))
+            # not part of the correspondence (compare_view drops '__' keys): class + str of what ended the run
+            out['__fatal'] = _cls_str(exc) if isinstance(exc, PybtexError) else None
         # non-strict
         with fresh_errors(False) as (errors, buf):
             exc = None
@@ -540,6 +709,7 @@ def _run_modes(case, want='all'):
                 exc = x
             out['strict'] = {'stderr': sanitize(_take(buf)), 'raised': _raised(exc, sanitize)}
             out['_strict_code'] = errors.error_code
+            out['__strict'] = _cls_str(exc) if isinstance(exc, PybtexError) else None
         # command line
         with fresh_errors(True) as (errors, buf):
             from pybtex.cmdline import CommandLine
@@ -564,6 +734,151 @@ def _run_modes(case, want='all'):
         return out
     finally:
         shutil.rmtree(tmp, ignore_errors=True)
+
+
+# ----------------------------------------------------------------------------------------------
+# errcli: the real command lines, in-process
+# ----------------------------------------------------------------------------------------------
+
+def _cli_main(prog):
+    """A FRESH CommandLine object of the program (the module-level `main` objects are left alone)."""
+    if prog == 'pybtex':
+        from pybtex.__main__ import PybtexCommandLine as C
+    elif prog == 'pybtex-convert':
+        from pybtex.database.convert.__main__ import PybtexConvertCommandLine as C
+    elif prog == 'pybtex-format':
+        from pybtex.database.format.__main__ import PybtexFormatCommandLine as C
+    else:
+        raise ValueError(prog)
+    return C()
+
+
+def _argv_of(items):
+    """structured command line -> (argv, option kinds in order, number of positional arguments)"""
+    argv, kinds, nargs = [], [], 0
+    for it in items:
+        k = it[0]
+        if k == 'arg':
+            argv.append(it[1])
+            nargs += 1
+        else:
+            argv += it[1:]
+            kinds.append(k)
+    return argv, kinds, nargs
+
+
+def _cli_api(main, items, tmp, sanitize):
+    """What the computation behind a command line reports, observed at the API level: the program's own `run`
+    called under errors.capture() with the options its own parser produces.  (collected, fatal, plug-in error)"""
+    from pybtex.exceptions import PybtexError
+    argv, kinds, nargs = _argv_of(items)
+    if 'rejected' in kinds or 'info' in kinds or nargs != main.num_args:
+        return [], None, None
+    with fresh_errors(True) as (errors, buf):
+        os.chdir(tmp)
+        try:
+            options, args = main.opt_parser.parse_args(list(argv))
+        except PybtexError as x:
+            return [], None, x
+        except SystemExit:
+            return [], None, None
+        kwargs = main._extract_kwargs(options)
+        exc = None
+        collected = []
+        try:
+            with errors.capture() as collected:
+                main.run(*args, **kwargs)
+        except BaseException as x:  # noqa
+            exc = x
+        return list(collected), exc, None
+
+
+def _run_cli(case, want='all'):
+    from pybtex.exceptions import PybtexError
+    tmp = _mktmp()
+    sanitize = lambda s: s.replace(tmp, 'TMPDIR')  # noqa: E731
+    try:
+        for name, content in case['files']:
+            _write(tmp, name, content)
+        if want == 'specs':
+            runs = []
+            perr = None
+            for items in case['runs']:
+                main = _cli_main(case['prog'])
+                argv, kinds, nargs = _argv_of(items)
+                collected, exc, pe = _cli_api(main, items, tmp, sanitize)
+                if pe is not None:
+                    perr = spec_of_exception(pe, sanitize)
+                runs.append({'opts': kinds, 'nargs': nargs, 'reports': [spec_of_exception(e, sanitize) for e in collected],
+                             'fatal': spec_of_exception(exc, sanitize) if isinstance(exc, PybtexError) else None,
+                             '_foreign': _kind(exc) if exc is not None and not isinstance(exc, PybtexError) else None})
+            return {'num_args': _cli_main(case['prog']).num_args, 'perr': perr, 'runs': runs}
+        out = {'runs': []}
+        with fresh_errors(True) as (errors, buf):
+            os.chdir(tmp)
+            for items in case['runs']:
+                main = _cli_main(case['prog'])
+                argv, kinds, nargs = _argv_of(items)
+                sys.argv = [case['prog']] + list(argv)
+                status = 'no-exit'
+                try:
+                    main()
+                except SystemExit as x:
+                    status = x.code
+                except BaseException as x:  # noqa
+                    status = _kind(x)
+                out['runs'].append({'stderr': sanitize(_take(buf)), 'status': status})
+            out['final'] = [errors.strict, errors.error_code, errors.captured_errors is None]
+        return out
+    finally:
+        shutil.rmtree(tmp, ignore_errors=True)
+
+
+# ----------------------------------------------------------------------------------------------
+# errfree: context managers left in any order
+# ----------------------------------------------------------------------------------------------
+
+def _run_free(case):
+    with fresh_errors(case['strict0']) as (errors, buf):
+        h = _Hist(case, errors, buf)
+        opened = []          # most recently entered first
+        try:
+            for op in case['ops']:
+                o = op['o']
+                if o == 'strict':
+                    errors.set_strict_mode(op['b'])
+                    h.note(None)
+                elif o == 'enter':
+                    cm = errors.capture()
+                    try:
+                        cm.__enter__()
+                    except BaseException as x:  # noqa
+                        h.note({'enter_raised': _kind(x)})
+                        continue
+                    opened.insert(0, cm)
+                    h.note(None)
+                elif o == 'exitk':
+                    if op['k'] >= len(opened):
+                        h.note('no-context')
+                        continue
+                    cm = opened.pop(op['k'])
+                    seen = h.idl(errors.captured_errors)
+                    obs = {'left': seen}
+                    try:
+                        if cm.__exit__(None, None, None):
+                            obs['swallowed'] = True
+                    except BaseException as x:  # noqa -- what the implementation does is an observation, never a harness failure
+                        obs['exit_raised'] = _kind(x)
+                    h.note(obs)
+                else:
+                    h.report(op['k'])
+            return {'trace': h.trace, 'final': h.state(), 'open': len(opened)}
+        finally:
+            while opened:
+                try:
+                    opened.pop(0).__exit__(None, None, None)
+                except BaseException:  # noqa
+                    pass
 
 
 # ----------------------------------------------------------------------------------------------
@@ -630,6 +945,10 @@ def impl(case):
         return {'errors': errs, 'foreign': foreign, 'import_problems': problems}
     if op == 'errmodes':
         return _run_modes(case)
+    if op == 'errcli':
+        return _run_cli(case)
+    if op == 'errfree':
+        return _run_free(case)
     if op == 'fmtchars':
         from pybtex.bibtex.names import NameFormat
         from pybtex.scanner import PybtexSyntaxError
@@ -645,13 +964,117 @@ def impl(case):
     raise ValueError(op)
 
 
+def _universal(text):
+    """what a text-mode file hands to its reader"""
+    return text.replace('\r\n', '\n').replace('\r', '\n')
+
+
+def _file_lines(text):
+    """the lines a text-mode file iterates over, without their line ends"""
+    t = _universal(text)
+    lines = t.split('\n')
+    if lines and lines[-1] == '':
+        lines.pop()
+    return lines
+
+
+BST_FUEL = 200000
+
+
+def model_source(case):
+    """The input of the case for the reader model that owns it (C10 .bib reader, C15 .bst parser, C20 .aux reader, C03 BST
+    interpreter): the driver computes the expected problems from it.  None = no reader model for this kind."""
+    kind = case.get('kind')
+    if case.get('nomodel'):
+        return None
+    if kind == 'bib':
+        return {'kind': 'bib', 'text': case['text']}
+    if kind == 'bibfile':
+        return {'kind': 'bib', 'text': _universal(case['text'])}
+    if kind in BST_ENTRY:
+        return {'kind': 'bst', 'text': case['text'], 'entry': BST_ENTRY[kind]}
+    if kind == 'aux':
+        return {'kind': 'aux', 'files': [['input.aux', _file_lines(case['text'])]], 'top': 'input.aux'}
+    if kind == 'auxfs':
+        return {'kind': 'aux', 'files': case['files'], 'top': case['top']}
+    if kind == 'bibtex_run':
+        return {'kind': 'bstrun', 'bst': case['bst'], 'bibs': case['bibs'], 'citations': case['citations'],
+                'min_crossrefs': case.get('min_crossrefs', 2), 'fuel': BST_FUEL}
+    return None
+
+
+_SPEC_CACHE = {}
+_PENDING = []          # the cases of the current run (left here by gen_cases): their API-level observations are computed in parallel
+
+
+def _case_key(case):
+    import json
+    return json.dumps(case, sort_keys=True, ensure_ascii=False)
+
+
+def _spec_job(case):
+    try:
+        if case['op'] == 'errmodes':
+            return _run_modes(case, want='specs')
+        return _run_cli(case, want='specs')
+    except BaseException as x:  # noqa -- recomputed (and reported) in the main process
+        return {'__error': '%s: %s' % (type(x).__name__, x)}
+
+
+def _precompute():
+    """The driver request of an errmodes / errcli case needs the implementation's capture run; check.py builds the requests one
+    by one in the main process, so the runs of all cases of the stream are done here at once, in worker processes."""
+    import multiprocessing
+    todo = [c for c in _PENDING if c.get('op') in ('errmodes', 'errcli')]
+    del _PENDING[:]
+    n = min(int(os.environ.get("VERIF_JOBS", "16")), os.cpu_count() or 1)
+    if len(todo) < 200 or n <= 1:
+        return
+    ctx = multiprocessing.get_context('fork')
+    with ctx.Pool(n) as pool:
+        res = pool.map(_spec_job, todo, chunksize=max(1, len(todo) // (n * 8)))
+    for c, r in zip(todo, res):
+        if not (isinstance(r, dict) and '__error' in r):
+            _SPEC_CACHE[_case_key(c)] = r
+
+
+def _specs(case):
+    if _PENDING:
+        _precompute()
+    r = _SPEC_CACHE.get(_case_key(case)) if _SPEC_CACHE else None
+    if r is None:
+        r = _spec_job(case)
+        if isinstance(r, dict) and '__error' in r:
+            raise RuntimeError(r['__error'])
+    return r
+
+
 def to_request(case):
     if case['op'] == 'errmodes':
-        reports, fatal = _run_modes(case, want='specs')
-        return {'op': 'errmodes', 'reports': reports, 'fatal': fatal}
+        reports, fatal = _specs(case)
+        req = {'op': 'errmodes', 'reports': reports, 'fatal': fatal}
+        src = model_source(case)
+        if src is not None:
+            req['src'] = src
+        return req
+    if case['op'] == 'errcli':
+        api = _specs(case)
+        req = {'op': 'errcli', 'num_args': api['num_args'], 'code0': 0, 'strict0': True,
+               'runs': [{k: v for k, v in r.items() if not k.startswith('_')} for r in api['runs']],
+               'foreign': [r['_foreign'] for r in api['runs']]}
+        if api['perr'] is not None:
+            req['perr'] = api['perr']
+        return req
     if case['op'] == 'errrender':
         return {'op': 'errrender', 'e': case['e'], 'prefix': case['prefix']}
     return case
+
+
+def compare_view(io):
+    """keys starting with '__' are observations for the oracle only, not part of the correspondence"""
+    if isinstance(io, dict):
+        return {k: v for k, v in io.items() if not k.startswith('__')}
+    return io
 
 
 def _join(texts):
@@ -681,6 +1104,10 @@ def model_out(case, reply):
                # non-strict mode prints every report: its warnings are the WARNING renderings of what capture collects
                '_warnings': out['nonstrict']['stderr'], '_stderr_capture': '', '_strict_code': 0}
         return res
+    if op == 'errcli':
+        if 'unmodelled' in out:
+            return out
+        return {'runs': [dict(r, stderr=_join(r['stderr'])) for r in out['runs']], 'final': out['final']}
     if op == 'fmtchars':
         return out
     return out
@@ -701,6 +1128,8 @@ def _has_fail(x):
 def _oracle_hist(case, res, spec, style):
     fails = []
     ops = case['ops']
+    if len(res['trace']) < len(ops):
+        return ['foreign_exception: [%s] the context manager itself raised: %r' % (style, [t['obs'] for t in res['trace'] if _has_fail(t['obs'])][:1])]
     reports = [(i, op['k']) for i, op in enumerate(ops) if op['o'] == 'report']
     got = []
     for i, k in reports:
@@ -784,45 +1213,177 @@ def oracle(case, impl_out, reply):
             fails.append('foreign_exception: name format "{%s}" raised %s instead of a pybtex error' % (case['value'], impl_out))
         return fails
     if op == 'errmodes':
-        cap, ns, st, cl = impl_out['capture'], impl_out['nonstrict'], impl_out['strict'], impl_out['cmdline']
-        wf = True if spec is None else spec.get('wf', True)
-        for n, rec in enumerate(cap['collected']):
-            fails += _oracle_render(rec, ERROR, wf, 'problem #%d (%s)' % (n, rec['cls']))
-        for name, r in (('capture', cap['raised']), ('non-strict', ns['raised']), ('strict', st['raised']), ('command line', cl['status'])):
-            if _has_fail(r):
-                fails.append('foreign_exception: %s mode ended with %r' % (name, r))
-        if fails:
-            return fails
-        warn = impl_out['_warnings']
-        n = len(warn)
-        if ns['stderr'] != ''.join(w + '\n' for w in warn):
-            fails.append('mode_independent: non-strict mode printed %r; capture mode collected %d problems rendering as %r' % (ns['stderr'], n, warn))
-        if ns['code'] != (2 if n else 0):
-            fails.append('mode_independent: %d problems but error_code is %r in non-strict mode' % (n, ns['code']))
-        if ns['raised'] != cap['raised']:
-            fails.append('mode_independent: fatal error differs: capture %r, non-strict %r' % (cap['raised'], ns['raised']))
-        first = cap['collected'][0]['format'] if n else cap['raised']
-        if st['raised'] != first:
-            fails.append('mode_independent: strict mode raised %r, the first problem of capture mode is %r' % (st['raised'], first))
-        if st['stderr'] or impl_out['_strict_code'] != 0 or impl_out['_stderr_capture']:
-            fails.append('mode_independent: strict / capture mode wrote to stderr or changed error_code: %r %r %r' % (
-                st['stderr'], impl_out['_strict_code'], impl_out['_stderr_capture']))
-        if not cap['restored']:
-            fails.append('capture_restores: module state not restored after the capture context was left')
-        expected_status = 1 if cap['raised'] is not None else (2 if n else 0)
-        if cl['status'] != expected_status:
-            fails.append('exit_status: command line exit status %r, expected %r (%d problems, fatal: %r)' % (cl['status'], expected_status, n, cap['raised']))
-        if spec is not None and (spec['status'] != expected_status or len(spec['collected']) != n):
-            fails.append('exit_status: reference status %r for %d problems, implementation shows %r for %d' % (
-                spec['status'], len(spec['collected']), expected_status, n))
-        expect = EXPECT.get((case['kind'], case['text']))
-        if expect is not None:
-            got = [[r['cls'], _lineno_of(r)] for r in cap['collected']]
-            if cap['raised'] is not None:
-                got.append(['FATAL', None])
-            if got != expect:
-                fails.append('same_problems: expected problems %r, capture mode collected %r' % (expect, got))
+        return _oracle_modes(case, impl_out, spec)
+    if op == 'errcli':
+        return _oracle_cli(case, impl_out, spec, reply)
+    if op == 'errfree':
+        # judged inside the quantifier of the property only (contexts left innermost first); what the module does in another order
+        # is tied to the model by the correspondence, not judged
+        if spec['lifo'] and _has_fail(impl_out):
+            fails.append('foreign_exception: a non-pybtex exception was observed: %r' % [t['obs'] for t in impl_out['trace'] if _has_fail(t['obs'])][:2])
+        if spec['lifo'] and impl_out['open'] == 0 and impl_out['final'][2] is not None:
+            fails.append('capture_restores: every context has been left (innermost first) but captured_errors is %r, not None' % (impl_out['final'][2],))
         return fails
+    return fails
+
+
+ILLFORMED = 'foreign_exception[bst-illformed]'
+
+# recorded finding (known_findings.json): a .bst program BibTeX itself rejects -- ill-typed operands, an entry-dependent function
+# outside ITERATE, ITERATE / REVERSE of an undefined name, assignment to a field / built-in / function, int.to.chr$ beyond a C int --
+# ends in a Python exception that is not a pybtex error.  The oracle tags a failure with ILLFORMED only when the BST semantics
+# (the C03 interpreter model, run by the driver on the same program and database) has no pybtex outcome for the program.
+# the errmodes model is a computation = reports + optional PYBTEX error: it cannot end in a non-pybtex exception (no model may produce
+# INTERNAL), so on the inputs of this finding model and implementation differ by design
+KNOWN_MODEL_DIFFERS = ('C16-bst-illformed-program',)
+KNOWN_MATCHERS = {
+    'C16-bst-illformed-program': lambda case, impl_out, failure_text: (
+        case.get('op') == 'errmodes' and case.get('kind') == 'bibtex_run' and failure_text.startswith(ILLFORMED + ':')),
+}
+
+
+def _oracle_modes(case, impl_out, spec):
+    fails = []
+    cap, ns, st, cl = impl_out['capture'], impl_out['nonstrict'], impl_out['strict'], impl_out['cmdline']
+    wf = True if spec is None else spec.get('wf', True)
+    exp = spec.get('expected') if spec else None
+    # the BST semantics (C03 model) has no pybtex outcome for this program (ill-typed operands, commands out of order ...):
+    # a non-pybtex exception there is the recorded finding, tagged so that nothing else can be taken for it
+    tag = ILLFORMED if (exp and exp['end'][0] == 'foreign' and not exp['end'][1].startswith('unmodelled') and
+                        case.get('kind') == 'bibtex_run') else 'foreign_exception'
+    for n, rec in enumerate(cap['collected']):
+        fails += _oracle_render(rec, ERROR, wf, 'problem #%d (%s)' % (n, rec['cls']))
+    for name, r in (('capture', cap['raised']), ('non-strict', ns['raised']), ('strict', st['raised']), ('command line', cl['status'])):
+        if _has_fail(r):
+            what = 'the error that ended it cannot be rendered: %r' % (r,) if isinstance(r, dict) else 'ended with %r' % (r,)
+            fails.append('%s: %s mode %s' % (tag if not isinstance(r, dict) else 'render_total', name, what))
+    if fails:
+        return fails
+    warn = impl_out['_warnings']
+    n = len(warn)
+    if ns['stderr'] != ''.join(w + '\n' for w in warn):
+        fails.append('mode_independent: non-strict mode printed %r; capture mode collected %d problems rendering as %r' % (ns['stderr'], n, warn))
+    if ns['code'] != (2 if n else 0):
+        fails.append('mode_independent: %d problems but error_code is %r in non-strict mode' % (n, ns['code']))
+    if ns['raised'] != cap['raised']:
+        fails.append('mode_independent: fatal error differs: capture %r, non-strict %r' % (cap['raised'], ns['raised']))
+    first = cap['collected'][0]['format'] if n else cap['raised']
+    if st['raised'] != first:
+        fails.append('mode_independent: strict mode raised %r, the first problem of capture mode is %r' % (st['raised'], first))
+    if st['stderr'] or impl_out['_strict_code'] != 0 or impl_out['_stderr_capture']:
+        fails.append('mode_independent: strict / capture mode wrote to stderr or changed error_code: %r %r %r' % (
+            st['stderr'], impl_out['_strict_code'], impl_out['_stderr_capture']))
+    if not cap['restored']:
+        fails.append('capture_restores: module state not restored after the capture context was left')
+    expected_status = 1 if cap['raised'] is not None else (2 if n else 0)
+    if cl['status'] != expected_status:
+        fails.append('exit_status: command line exit status %r, expected %r (%d problems, fatal: %r)' % (cl['status'], expected_status, n, cap['raised']))
+    if spec is not None and 'status' in spec and (spec['status'] != expected_status or len(spec['collected']) != n):
+        fails.append('exit_status: reference status %r for %d problems, implementation shows %r for %d' % (
+            spec['status'], len(spec['collected']), expected_status, n))
+    expect = _expect_for(case)
+    if expect is not None:
+        got = [[r['cls'], _lineno_of(r)] for r in cap['collected']]
+        if cap['raised'] is not None:
+            got.append(['FATAL', None])
+        if got != expect:
+            fails.append('same_problems: expected problems %r, capture mode collected %r' % (expect, got))
+    if exp:
+        fails += _oracle_expected(exp, [[r['cls'], r['str']] for r in cap['collected']], impl_out.get('__fatal'), _strict_first(impl_out))
+    return fails
+
+
+_NAMED_FP = None
+
+
+def _fingerprint(case):
+    import hashlib
+    import json
+    return hashlib.sha1(json.dumps({k: v for k, v in case.items() if k != 'name'}, sort_keys=True, ensure_ascii=False).encode('utf-8')).hexdigest()
+
+
+def _expect_for(case):
+    """The hand-made expectation of a case: looked up by the exact text, or by the name of a constructed case -- then only if the
+    case still IS that construction (a shrunk variant keeps the name but is another input)."""
+    global _NAMED_FP
+    key = (case['kind'], case.get('name', case.get('text')))
+    e = EXPECT.get(key)
+    if e is None or 'name' not in case:
+        return e
+    if _NAMED_FP is None:
+        import random
+        named = [c for c in _engine_cases('quick', random.Random(0), named_only=True) + _format_cases('quick', random.Random(0), named_only=True)
+                 if 'name' in c]
+        _NAMED_FP = {(c['kind'], c['name']): _fingerprint(c) for c in named}
+    return e if _NAMED_FP.get(key) == _fingerprint(case) else None
+
+
+def _strict_first(impl_out):
+    return impl_out.get('__strict')
+
+
+def _oracle_expected(exp, got, fatal, strict_raised):
+    """every_problem_reported: the problems of the input, as the reader semantics of the property that owns the reader computes
+    them from the input text (C10 .bib reader / C15 .bst parser / C20 .aux reader / C03 BST interpreter models), are the
+    problems reported, in that order."""
+    fails = []
+    end = exp['end']
+    if exp['reports'] is not None and end[0] in ('finished', 'fatal') and got != exp['reports']:
+        k = 0
+        while k < len(got) and k < len(exp['reports']) and got[k] == exp['reports'][k]:
+            k += 1
+        fails.append('every_problem_reported: the input has the problems %r (reader semantics), reported were %r (first difference at #%d)' % (
+            exp['reports'], got, k))
+    if end[0] == 'finished' and fatal is not None:
+        fails.append('every_problem_reported: the run was ended by %r, the reader semantics finishes' % (fatal,))
+    if end[0] == 'fatal':
+        if fatal is None:
+            fails.append('every_problem_reported: the reader semantics ends with the error %r, the run finished' % (end[1:],))
+        elif fatal[0] != end[1] or (end[2] is not None and fatal[1] != end[2]):
+            fails.append('every_problem_reported: the reader semantics ends with the error %r, the run ended with %r' % (end[1:], fatal))
+    if 'strict' in exp and strict_raised is not False:
+        if exp['strict'] != strict_raised:
+            fails.append('mode_independent: the strict reading raises %r by the reader semantics, observed %r' % (exp['strict'], strict_raised))
+    return fails
+
+
+def _oracle_cli(case, impl_out, spec, reply):
+    fails = []
+    for i, run in enumerate(impl_out['runs']):
+        if _has_fail(run['status']) or run['status'] == 'no-exit':
+            fails.append('foreign_exception: run #%d of %s %r ended with %r' % (i, case['prog'], _argv_of(case['runs'][i])[0], run['status']))
+    if fails or spec is None:
+        return fails
+    for i, (run, sp) in enumerate(zip(impl_out['runs'], spec['runs'])):
+        argv = _argv_of(case['runs'][i])[0]
+        what = 'run #%d: %s %s' % (i, case['prog'], ' '.join(argv))
+        if not sp['runs_computation']:
+            if run['status'] == 0 and not sp['info']:
+                fails.append('exit_status: %s: the command line is not accepted but the exit status is 0' % what)
+            continue
+        if isinstance(sp['first'], dict) or any(isinstance(w, dict) for w in sp['warnings']) or isinstance(sp['fatal'], dict):
+            fails.append('render_total: %s: a problem cannot be rendered' % what)
+            continue
+        if sp['strict']:
+            # "In strict mode the first problem raises"
+            if sp['problems']:
+                if run['stderr'] != sp['first'] + '\n' or run['status'] != 1:
+                    fails.append('strict_option: %s: --strict is given and the input has %d problem(s): expected exit status 1 and exactly %r '
+                                 'on stderr, observed status %r and %r' % (what, sp['problems'], sp['first'] + '\n', run['status'], run['stderr']))
+            elif run['stderr'] or (i == 0 and run['status'] != 0):
+                fails.append('strict_option: %s: no problem but stderr %r / status %r' % (what, run['stderr'], run['status']))
+        else:
+            want = ''.join(w + '\n' for w in sp['warnings']) + (sp['fatal'] + '\n' if sp['fatal'] is not None else '')
+            if run['stderr'] != want:
+                fails.append('mode_independent: %s: stderr is %r; the problems collected in capture mode render as %r' % (what, run['stderr'], want))
+            if sp['fatal'] is not None:
+                if run['status'] != 1:
+                    fails.append('exit_status: %s: a pybtex error ended the run but the exit status is %r' % (what, run['status']))
+            elif sp['warnings']:
+                if run['status'] == 0 or (i == 0 and run['status'] != 2):
+                    fails.append('exit_status: %s: %d warnings but the exit status is %r' % (what, len(sp['warnings']), run['status']))
+            elif i == 0 and run['status'] != 0:
+                fails.append('exit_status: %s: nothing was reported but the exit status is %r' % (what, run['status']))
     return fails
 
 
@@ -850,6 +1411,11 @@ def buckets(case, impl_out):
         n = len(impl_out['capture']['collected']) if isinstance(impl_out, dict) and 'capture' in impl_out else -1
         fatal = isinstance(impl_out, dict) and impl_out.get('capture', {}).get('raised') is not None
         return ['errmodes:%s:problems=%s%s' % (case['kind'], min(n, 3), '+fatal' if fatal else '')]
+    if op == 'errcli':
+        st = [r['status'] for r in impl_out.get('runs', [])] if isinstance(impl_out, dict) else []
+        return ['errcli:%s:runs=%d:status=%s' % (case['prog'], len(case['runs']), ','.join(str(x) for x in st))]
+    if op == 'errfree':
+        return ['errfree:lifo' if all(o['o'] != 'exitk' or o['k'] == 0 for o in case['ops']) else 'errfree:non-lifo']
     return [op]
 
 
@@ -868,6 +1434,15 @@ def nontrivial(case, impl_out):
     if op == 'errmodes':
         return isinstance(impl_out, dict) and 'capture' in impl_out and (
             bool(impl_out['capture']['collected']) or impl_out['capture']['raised'] is not None)
+    if op == 'errcli':
+        return isinstance(impl_out, dict) and any(r['status'] != 0 for r in impl_out.get('runs', []))
+    if op == 'errfree':
+        seen_enter = False
+        for o in case['ops']:
+            seen_enter = seen_enter or o['o'] == 'enter'
+            if o['o'] == 'report' and seen_enter:
+                return True
+        return False
     return True
 
 
@@ -890,7 +1465,35 @@ def valid_case(case):
             return _wf_info(e['info'])
         return True
     if op == 'errmodes':
-        return case['kind'] != 'plugin' or '|' in case['text']
+        kind = case.get('kind')
+        if kind == 'plugin':
+            return '|' in case['text']
+        if kind == 'auxfs':
+            import props.c20 as c20
+            return c20.valid_case({'op': 'aux', 'top': case.get('top'), 'files': case.get('files')})
+        if kind in ('bibtex_run', 'python_run'):
+            return isinstance(case.get('bibs'), list) and isinstance(case.get('citations'), list)
+        if kind in ('convert', 'format', 'make_bibliography'):
+            return isinstance(case.get('files'), list) and all(isinstance(f, list) and len(f) == 2 for f in case['files'])
+        return isinstance(case.get('text'), str)
+    if op == 'errcli':
+        return (isinstance(case.get('runs'), list) and bool(case['runs']) and
+                all(isinstance(r, list) and all(isinstance(it, list) and it and it[0] in ('arg', 'strict', 'other', 'rejected', 'plugin_error', 'info') and
+                                                (it[0] != 'arg' or len(it) == 2) and (it[0] == 'arg' or len(it) >= 2) for it in r)
+                    for r in case['runs']) and
+                all(isinstance(f, list) and len(f) == 2 for f in case.get('files', [])))
+    if op == 'errfree':
+        d = 0
+        for o in case['ops']:
+            if o['o'] == 'enter':
+                d += 1
+            elif o['o'] == 'exitk':
+                if o['k'] >= d:
+                    return False
+                d -= 1
+            elif o['o'] == 'report' and not 0 <= o['k'] < len(case['errs']):
+                return False
+        return True
     if op == 'fmtchars':
         return bool(case['value']) and case['value'].isascii() and case['value'].isalpha()
     return True
@@ -1045,6 +1648,9 @@ def _grid_cases():
                     if f and ln == 7:
                         cases.append(_render(e, WARNING, fn_bytes=True))
     for m in MSGS:
+        for p in PREFIXES:
+            cases.append(_render({'cls': 'AuxDataError', 'msg': m, 'noctx': True}, p))
+    for m in MSGS:
         for f in FILES:
             for ln in LINENOS:
                 for line in [None, '', '\\bibstyle{x}', '\u00fcn\u00ef \\citation{a}', 'a\x0cb']:
@@ -1155,7 +1761,7 @@ MODE_CASES = [
     ('plugin', 'pybtex.backends|latex', []),
 ]
 
-EXPECT = {(k, t): e for k, t, e in MODE_CASES}   # known answers for the hand-made inputs (looked up by the exact text)
+EXPECT = {(k, t): e for k, t, e in MODE_CASES}   # known answers for the hand-made inputs (looked up by the exact text / the name)
 
 BIB_BASES = [GOOD_BIB,
              '@article{a, author = {A, B and C, D}, title = {T}, year = 2000}\n@book{b, title = "x" # jan, crossref = {a}}\n',
@@ -1199,6 +1805,497 @@ def _random_modes(rng):
     return {'op': 'errmodes', 'kind': 'namefmt', 'text': _rand_str(rng, 'fFvljx{}~ ,.', 0, 8)}
 
 
+# ----------------------------------------------------------------------------------------------
+# inputs of the corruption generators of C10 / C15 / C20 (the quantifier of the property)
+# ----------------------------------------------------------------------------------------------
+
+def _sample(rng, xs, n):
+    if len(xs) <= n:
+        return list(xs)
+    return rng.sample(xs, n)
+
+
+def _reader_cases(tier, rng):
+    """error-producing inputs from the generators of the properties that own the readers; the expected problems of each are
+    computed by the driver from the reader MODELS of those properties (request key `src`)."""
+    import random
+    import props.c10 as c10
+    import props.c15 as c15
+    import props.c20 as c20
+    quick = tier == 'quick'
+    sub = random.Random(rng.getrandbits(64))
+    cases = []
+    counts = {}
+    # C10: single-token corruptions of one entry inside a document + strings over the token alphabet + random
+    cs = c10.gen_cases('quick' if quick else 'thorough', sub, {})
+    corr = [c for c in cs if 'pre' in c]
+    rest = [c for c in cs if 'pre' not in c and len(c10.text_of(c)) < 400]
+    picked = corr + _sample(sub, rest, 700 if quick else 15000)
+    for i, c in enumerate(picked):
+        cases.append({'op': 'errmodes', 'kind': 'bibfile' if i % 8 == 7 else 'bib', 'text': c10.text_of(c), 'gen': 'C10'})
+    counts['C10'] = len(picked)
+    # C15: every lexeme-level corruption and text truncation of the base programs, raw token soup
+    cs = c15.gen_corruptions('quick' if quick else 'thorough', {})
+    cs = _sample(sub, cs, 900 if quick else 8000)
+    kinds = ['bst', 'bst_stream', 'bst_file']
+    for i, c in enumerate(cs):
+        cases.append({'op': 'errmodes', 'kind': kinds[i % 3], 'text': c15.case_text(c), 'gen': 'C15'})
+    for i in range(150 if quick else 2000):
+        cases.append({'op': 'errmodes', 'kind': kinds[i % 3], 'text': c15.rand_raw(sub), 'gen': 'C15'})
+    counts['C15'] = len(cs) + (150 if quick else 2000)
+    # C20: documents over the 13-line alphabet with nested \@input, random (mostly valid / malformed) file sets
+    ex = [c for c in c20.exhaustive('quick')[0] if c['op'] == 'aux']
+    ex = _sample(sub, ex, 250 if quick else 3000)
+    rnd = [c20._random_case(sub, malformed=(i % 2 == 0)) for i in range(350 if quick else 4000)]
+    # encodings and the engine entry point are C20's own business: plain parse_file cases only (sub-directories are fine)
+    plain = [c for c in ex + rnd if not (c.get('mode') or c.get('enc') or c.get('fenc'))]
+    for c in plain:
+        d = {'op': 'errmodes', 'kind': 'auxfs', 'files': [[n, list(ls)] for n, ls in c['files']], 'top': c['top'], 'gen': 'C20'}
+        if not c.get('nl', True):
+            d['nl'] = False
+        cases.append(d)
+    counts['C20'] = len(plain)
+    return cases, counts
+
+
+# ----------------------------------------------------------------------------------------------
+# engine runs: a small database x faults, through the BibTeX engine and the Python engine
+# ----------------------------------------------------------------------------------------------
+
+ENTRIES = {
+    'article': '@article{a1, author={Alpha, Ann and Beta, Bob}, title={Title One}, journal={J}, year=2000}',
+    'misc': '@misc{m1, title={Title Two}, author={Gamma, Gil}, note={n}, year=1999}',
+    'unknown_type': '@foo{u1, title={Unknown}, author={Delta, Dee}, year=2001}',
+    'missing_field': '@article{a2, title={No Author}}',
+    'dangling': '@misc{c1, title={Child}, crossref={nope}}',
+    'commas': '@misc{n1, title={Names}, author={a, b, c, d}}',
+    'syntax': '@misc{s1, title = }',
+    'dup_field': '@misc{d1, title={x}, TITLE={y}}',
+    'repeat': '@misc{m1, title={again}}',
+    'undefined_macro': '@misc{um1, title = nomacro}',
+    'crossref_ok': ('@inproceedings{cp1, author={Eps, E}, title={Paper}, booktitle={Proc}, year=2002, crossref={proc1}}\n'
+                    '@proceedings{proc1, title={Proc}, year=2002, editor={Zeta, Z}}'),
+}
+ENTRY_KEYS = {'article': ['a1'], 'misc': ['m1'], 'unknown_type': ['u1'], 'missing_field': ['a2'], 'dangling': ['c1'], 'commas': ['n1'],
+              'syntax': ['s1'], 'dup_field': ['d1'], 'repeat': [], 'undefined_macro': ['um1'], 'crossref_ok': ['cp1', 'proc1']}
+FAULTS = ['unknown_type', 'missing_field', 'dangling', 'commas', 'syntax', 'dup_field', 'repeat', 'undefined_macro']
+# what a fault entry (first line of the database) makes the Python engine report: [class, line] then FATAL when the run is ended
+PY_EXPECT = {
+    None: [],
+    'unknown_type': [['FATAL', None]],                      # after proposed_fixes/C16-3 (a pybtex error names the entry)
+    'missing_field': [['FATAL', None]],                     # FieldIsMissing raised by the template
+    'dangling': [['BibliographyDataError', None]],
+    'commas': [['InvalidNameString', None]],
+    'syntax': [['TokenRequired', 1]],
+    'dup_field': [['DuplicateField', None]],
+    'repeat': [['BibliographyDataError', None]],
+    'undefined_macro': [['UndefinedMacro', 1]],
+}
+PY_STYLES = ['unsrt', 'plain', 'alpha', 'unsrtalpha']
+
+BST_BASE = """ENTRY { title author year } { } { label }
+INTEGERS { n }
+STRINGS { s }
+FUNCTION {output.it} { write$ newline$ }
+FUNCTION {misc} { title output.it %(body)s }
+FUNCTION {article} { author output.it }
+FUNCTION {default.type} { misc }
+%(pre)s
+READ
+%(mid)s
+ITERATE {call.type$}
+%(post)s
+"""
+# run-time faults of a .bst program: (name, slot, text).  First group: programs the BST semantics gives a pybtex outcome
+BST_FAULTS = [
+    ('clean', 'body', ''),
+    ('pop-empty', 'body', 'pop$ pop$'),
+    ('undefined-function', 'body', 'nofn'),
+    ('undefined-variable', 'body', "'novar"),
+    ('warning', 'body', '"w1" warning$'),
+    ('two-warnings-then-fatal', 'body', '"w1" warning$ "w2" warning$ nofn'),
+    ('empty-mode', 'body', '"abc" "" change.case$ pop$'),
+    ('bad-mode', 'body', '"abc" "q" change.case$ pop$'),
+    ('chr-to-int-2', 'body', '"ab" chr.to.int$ pop$'),
+    ('chr-to-int-0', 'body', '"" chr.to.int$ pop$'),
+    ('int-to-chr-neg', 'body', '#-1 int.to.chr$ pop$'),
+    ('int-to-chr-big', 'body', '#1114112 int.to.chr$ pop$'),
+    ('no-name-5', 'body', 'author #5 "{ff}" format.name$ pop$'),
+    ('no-name-0', 'body', 'author #0 "{ff}" format.name$ pop$'),
+    ('too-many-commas', 'body', '"a, b, c, d" #1 "{ff}" format.name$ pop$'),
+    ('format-unbalanced', 'body', '"x" #1 "{ff" format.name$ pop$'),
+    ('format-unbalanced-2', 'body', '"x" #1 "ff}" format.name$ pop$'),
+    ('format-bad-letters', 'body', '"x" #1 "{fx}" format.name$ pop$'),
+    ('entry-twice', 'pre', 'ENTRY {x}{}{}'),
+    ('function-twice', 'pre', 'FUNCTION {misc} { skip$ }'),
+    ('execute-undefined', 'mid', 'EXECUTE {nofn}'),
+    ('sort', 'mid', 'SORT'),
+    ('macro', 'pre', 'MACRO {jan} {"January"}'),
+    ('iterate-builtin', 'mid', 'ITERATE {skip$}'),
+    ('stack-leftover', 'body', '"left"'),
+    ('missing', 'body', 'year missing$ pop$ crossref missing$ pop$'),
+    ('substring', 'body', '"abc" #1 #-5 substring$ pop$'),
+    ('top', 'body', '"x" top$'),
+    ('text-prefix', 'body', '"abc" #-1 text.prefix$ pop$'),
+    ('unknown-command', 'post', 'BOGUS {x}'),
+    ('too-few-groups', 'post', 'FUNCTION {g}'),
+    ('unterminated', 'post', 'FUNCTION {g} { "abc }'),
+    # second group: programs BibTeX itself rejects (ill-typed operands, commands out of order): no pybtex outcome in the semantics
+    ('int-to-chr-huge', 'body', '#99999999999999999999 int.to.chr$ pop$'),
+    ('iterate-undefined', 'mid', 'ITERATE {nofn}'),
+    ('reverse-undefined', 'mid', 'REVERSE {nofn}'),
+    ('execute-entry-function', 'mid', 'EXECUTE {misc}'),
+    ('execute-cite', 'mid', 'EXECUTE {cite$}'),
+    ('assign-field', 'body', "\"x\" 'title :="),
+    ('assign-builtin', 'body', "\"x\" 'skip$ :="),
+    ('str-plus-int', 'body', '"a" #1 + pop$'),
+    ('int-concat-str', 'body', '#1 "a" * pop$'),
+    ('int-add-period', 'body', '#1 add.period$ pop$'),
+    ('assign-wrong-type', 'body', "\"a\" 'n :="),
+    ('if-str', 'body', '"a" { skip$ } { skip$ } if$'),
+    ('if-nonfunction', 'body', '#1 #2 #3 if$'),
+    ('while-nonfunction', 'body', '#1 #2 while$'),
+    ('compare-mixed', 'body', '"a" #1 > pop$'),
+    ('assign-literal', 'body', '#1 #2 :='),
+    ('empty-int', 'body', '#1 empty$ pop$'),
+    ('format-name-int', 'body', '#1 #1 "{ff}" format.name$ pop$'),
+    ('format-name-n-str', 'body', '"a" "b" "{ff}" format.name$ pop$'),
+    ('substring-str', 'body', '"abc" "a" #1 substring$ pop$'),
+    ('change-case-int', 'body', '#1 "l" change.case$ pop$'),
+    ('num-names-int', 'body', '#1 num.names$ pop$'),
+    ('purify-int', 'body', '#1 purify$ pop$'),
+    ('width-int', 'body', '#1 width$ pop$'),
+    ('int-to-chr-str', 'body', '"a" int.to.chr$ pop$'),
+]
+
+
+def _bst_program(faults):
+    slots = {'body': [], 'pre': [], 'mid': [], 'post': []}
+    for name, slot, text in faults:
+        slots[slot].append(text)
+    return BST_BASE % {k: ('\n' if k != 'body' else ' ').join(v) for k, v in slots.items()}
+
+
+def _db(names):
+    return '\n'.join(ENTRIES[n] for n in names) + '\n'
+
+
+def _keys(names):
+    out = []
+    for n in names:
+        out += ENTRY_KEYS[n]
+    return out
+
+
+def _engine_cases(tier, rng, named_only=False):
+    quick = tier == 'quick'
+    cases = []
+    # --- BibTeX engine: every fault alone on two databases, pairs of faults, the real styles on the fault entries
+    dbs = [['article', 'misc'], ['unknown_type', 'commas', 'misc']]
+    for f in BST_FAULTS:
+        for k, names in enumerate(dbs):
+            cases.append({'op': 'errmodes', 'kind': 'bibtex_run', 'name': 'fault:%s:db%d' % (f[0], k), 'bst': _bst_program([f]),
+                          'bibs': [_db(names)], 'citations': ['*'] if k == 0 else _keys(names) + ['zz']})
+    for _ in range(0 if named_only else 120 if quick else 1500):
+        fs = rng.sample(BST_FAULTS, rng.choice([2, 2, 3]))
+        names = rng.sample(sorted(ENTRIES), rng.randint(1, 4))
+        cites = ['*'] if rng.random() < 0.5 else _keys(names) + (['zz'] if rng.random() < 0.5 else [])
+        bibs = [_db(names)] if rng.random() < 0.7 else [_db(names[:1]), _db(names[1:])]
+        cases.append({'op': 'errmodes', 'kind': 'bibtex_run', 'bst': _bst_program(fs), 'bibs': bibs, 'citations': cites,
+                      'min_crossrefs': rng.choice([1, 2, 2])})
+    for style in (['plain', 'alpha'] if quick else ['plain', 'alpha', 'unsrt', 'apacite']):
+        path = os.path.join(compat.REPO, 'tests', 'data', style + '.bst')
+        if not os.path.exists(path):
+            continue
+        text = open(path, encoding='utf-8', newline='').read()
+        for fault in [None] + FAULTS:
+            names = ([fault] if fault else []) + ['article', 'misc']
+            for cites in (['*'], _keys(names) + ['zz']):
+                cases.append({'op': 'errmodes', 'kind': 'bibtex_run', 'name': 'style:%s:%s:%s' % (style, fault, cites[0]), 'bst': text,
+                              'bibs': [_db(names)], 'citations': cites})
+    # --- Python engine: every style x every fault entry (first line of the database) x citation list
+    for style in PY_STYLES:
+        for fault in [None] + FAULTS:
+            names = ([fault] if fault else []) + ['article', 'misc', 'crossref_ok']
+            for cites in (['*'], _keys(names) + ['zz']):
+                cases.append({'op': 'errmodes', 'kind': 'python_run', 'name': 'py:%s:%s:%s' % (style, fault, cites[-1]), 'style': style,
+                              'bibs': [_db(names)], 'citations': cites})
+    for _ in range(0 if named_only else 100 if quick else 1200):
+        names = rng.sample(sorted(ENTRIES), rng.randint(1, 5))
+        cites = ['*'] if rng.random() < 0.5 else _keys(names) + (['zz'] if rng.random() < 0.5 else [])
+        c = {'op': 'errmodes', 'kind': 'python_run', 'style': rng.choice(PY_STYLES + ['nostyle'] if rng.random() < 0.1 else PY_STYLES),
+             'bibs': [_db(names)], 'citations': cites, 'min_crossrefs': rng.choice([1, 2, 2])}
+        if rng.random() < 0.3:
+            c['backend'] = rng.choice(['html', 'text', 'markdown', 'latex', 'nobackend'])
+        cases.append(c)
+    return cases
+
+
+def _py_expect():
+    exp = {}
+    for style in PY_STYLES:
+        for fault in [None] + FAULTS:
+            for last in ('*', 'zz'):
+                e = [x for x in PY_EXPECT[fault] if x[0] != 'FATAL']
+                if last == 'zz':
+                    e.append(['BibliographyDataError', None])       # missing database entry for "zz"
+                e += [x for x in PY_EXPECT[fault] if x[0] == 'FATAL']
+                exp[('python_run', 'py:%s:%s:%s' % (style, fault, last))] = e
+    return exp
+
+
+# ----------------------------------------------------------------------------------------------
+# other database formats, convert / format / make_bibliography entry points
+# ----------------------------------------------------------------------------------------------
+
+YAML_GOOD = ('entries:\n  k1:\n    type: article\n    title: T one\n    author:\n      - first: Ann\n        last: Alpha\n'
+             '      - {first: Bob, last: Beta}\n    year: 2000\n  k2:\n    type: misc\n    note: "n: o"\npreamble: |\n  pre\n')
+XML_GOOD = """<bibtex:file xmlns:bibtex="http://bibtexml.sf.net/">
+
+    <bibtex:entry id="k1">
+        <bibtex:article>
+            <bibtex:title>T one</bibtex:title>
+            <bibtex:year>2000</bibtex:year>
+            <bibtex:author>
+                <bibtex:person>
+                    <bibtex:first>Ann</bibtex:first>
+                    <bibtex:last>Alpha</bibtex:last>
+                </bibtex:person>
+                <bibtex:person>Beta, Bob</bibtex:person>
+            </bibtex:author>
+        </bibtex:article>
+    </bibtex:entry>
+
+    <bibtex:entry id="k2">
+        <bibtex:misc>
+            <bibtex:note>n</bibtex:note>
+        </bibtex:misc>
+    </bibtex:entry>
+
+</bibtex:file>
+"""
+NS = 'xmlns:bibtex="http://bibtexml.sf.net/"'
+READER_CASES = [
+    # (kind, text, expected) -- malformed documents in the two other database formats: a pybtex error names the problem
+    ('yaml', YAML_GOOD, []),
+    ('yaml', 'entries: [1, 2', [['FATAL', None]]),
+    ('yaml', 'entries: 3', [['FATAL', None]]),
+    ('yaml', 'entries:\n  a:\n    title: t\n', [['FATAL', None]]),
+    ('yaml', 'preamble: x\n', [['FATAL', None]]),
+    ('yaml', '', [['FATAL', None]]),
+    ('yaml', '- a\n- b\n', [['FATAL', None]]),
+    ('yaml', 'entries:\n  a: 3\n', [['FATAL', None]]),
+    ('yaml', 'entries:\n  a:\n    type: misc\n    author: x\n', [['FATAL', None]]),
+    ('yaml', 'entries:\n  a:\n    type: misc\n    author:\n      - {foo: x}\n', [['FATAL', None]]),
+    ('yaml', 'entries:\n  a:\n    type: misc\n    author:\n      - x\n', [['FATAL', None]]),
+    ('yaml', 'entries:\n  a:\n    type: 3\n', [['FATAL', None]]),
+    ('yaml', 'entries:\n  1:\n    type: misc\n', [['FATAL', None]]),
+    ('yaml', 'entries:\n  a:\n    type: misc\n    2: x\n', [['FATAL', None]]),
+    ('yaml', 'entries:\n  a:\n    type: misc\n  A:\n    type: misc\n', [['BibliographyDataError', None]]),
+    ('yaml', 'entries:\n  a:\n    type: misc\n    author:\n      - {first: "a, b, c, d"}\n', []),
+    ('yaml', 'entries: {a: {type: misc, title: "t}\n', [['FATAL', None]]),
+    ('yaml', 'entries:\n\ta: b\n', [['FATAL', None]]),
+    ('yaml', 'entries: &x {a: *x}\n', [['FATAL', None]]),
+    ('yaml', 'entries: !!python/object:os.system {}\n', [['FATAL', None]]),
+    ('bibtexml', XML_GOOD, []),
+    ('bibtexml', '<a', [['FATAL', None]]),
+    ('bibtexml', '', [['FATAL', None]]),
+    ('bibtexml', '<bibtex:file %s><bibtex:entry id="a"/></bibtex:file>' % NS, [['FATAL', None]]),
+    ('bibtexml', '<bibtex:file %s><bibtex:entry id="a"><misc><title>t</title></misc></bibtex:entry></bibtex:file>' % NS, [['FATAL', None]]),
+    ('bibtexml', '<bibtex:file %s><bibtex:entry><bibtex:misc/></bibtex:entry></bibtex:file>' % NS, [['FATAL', None]]),
+    ('bibtexml', '<bibtex:file %s><bibtex:entry id="a"><bibtex:misc><bibtex:author/></bibtex:misc></bibtex:entry></bibtex:file>' % NS, [['FATAL', None]]),
+    ('bibtexml', '<bibtex:file %s><bibtex:entry id="a"><bibtex:misc><bibtex:author><bibtex:person><bibtex:foo>x</bibtex:foo></bibtex:person>'
+                 '</bibtex:author></bibtex:misc></bibtex:entry></bibtex:file>' % NS, [['FATAL', None]]),
+    ('bibtexml', '<bibtex:file %s><bibtex:entry id="a"><bibtex:misc/></bibtex:entry><bibtex:entry id="A"><bibtex:misc/></bibtex:entry></bibtex:file>' % NS,
+     [['BibliographyDataError', None]]),
+    ('bibtexml', '<file><entry id="a"><misc><title>t</title></misc></entry></file>', []),
+    ('bibtexml', '<bibtex:file %s><bibtex:entry id="a"><bibtex:misc><bibtex:author>a, b, c, d</bibtex:author></bibtex:misc></bibtex:entry></bibtex:file>' % NS,
+     [['InvalidNameString', None]]),
+]
+YAML_CORRUPT = ':-[]{}\n #"\'&*!|>,?'
+XML_CORRUPT = '<>/"= &;:\n!-'
+
+
+def _corrupt_with(rng, text, n, alphabet):
+    t = list(text)
+    for _ in range(n):
+        r = rng.random()
+        i = rng.randrange(len(t) + 1)
+        if r < 0.4 and t:
+            del t[min(i, len(t) - 1)]
+        elif r < 0.8:
+            t.insert(i, rng.choice(alphabet))
+        elif t:
+            j = rng.randrange(len(t))
+            t[min(i, len(t) - 1)], t[j] = t[j], t[min(i, len(t) - 1)]
+    return ''.join(t)
+
+
+def _format_cases(tier, rng, named_only=False):
+    quick = tier == 'quick'
+    cases = [{'op': 'errmodes', 'kind': k, 'text': t} for k, t, _e in READER_CASES]
+    for k, t, _e in READER_CASES[:3] + READER_CASES[20:23]:
+        cases.append({'op': 'errmodes', 'kind': 'yamlfile' if k == 'yaml' else 'xmlfile', 'text': t})
+    step = 3 if quick else 1
+    for i in range(0, len(YAML_GOOD), step):
+        cases.append({'op': 'errmodes', 'kind': 'yaml', 'text': YAML_GOOD[:i]})
+    for i in range(0, len(XML_GOOD), step * 2):
+        cases.append({'op': 'errmodes', 'kind': 'bibtexml', 'text': XML_GOOD[:i]})
+    for _ in range(0 if named_only else 150 if quick else 2500):
+        cases.append({'op': 'errmodes', 'kind': 'yaml', 'text': _corrupt_with(rng, YAML_GOOD, rng.randint(1, 4), YAML_CORRUPT)})
+        cases.append({'op': 'errmodes', 'kind': 'bibtexml', 'text': _corrupt_with(rng, XML_GOOD, rng.randint(1, 3), XML_CORRUPT)})
+    # entry points above the readers
+    good = _db(['article', 'misc'])
+    bad = '@misc{k, title = nomacro,\n title = {t}}\n@misc{j, note }\n' + good
+    for name, text in (('good', good), ('bad', bad), ('unknown', _db(['unknown_type', 'misc'])), ('missing', _db(['missing_field']))):
+        files = [['in.bib', text]]
+        cases.append({'op': 'errmodes', 'kind': 'convert', 'name': 'convert:%s' % name, 'files': files, 'from': 'in.bib', 'to': 'out.yaml'})
+        cases.append({'op': 'errmodes', 'kind': 'convert', 'name': 'convert-same:%s' % name, 'files': files, 'from': 'in.bib', 'to': 'in.bib'})
+        cases.append({'op': 'errmodes', 'kind': 'convert', 'name': 'convert-suffix:%s' % name, 'files': files, 'from': 'in.bib', 'to': 'out.zzz'})
+        cases.append({'op': 'errmodes', 'kind': 'convert', 'name': 'convert-missing:%s' % name, 'files': files, 'from': 'gone.bib', 'to': 'out.yaml'})
+        cases.append({'op': 'errmodes', 'kind': 'format', 'name': 'format:%s' % name, 'files': files, 'from': 'in.bib', 'to': 'out.txt'})
+        cases.append({'op': 'errmodes', 'kind': 'format', 'name': 'format-plain:%s' % name, 'files': files, 'from': 'in.bib', 'to': 'out.html', 'style': 'plain'})
+    for engine in ('bibtex', 'python'):
+        for auxname, aux in AUX_DOCS:
+            for dbname, text in (('good', good), ('bad', bad), ('unknown', _db(['unknown_type', 'misc']))):
+                cases.append({'op': 'errmodes', 'kind': 'make_bibliography', 'name': 'mb:%s:%s:%s' % (engine, auxname, dbname), 'engine': engine,
+                              'aux': 'doc.aux', 'files': [['doc.aux', aux], ['db.bib', text], ['unsrt.bst', _bst_program([BST_FAULTS[4]])]]})
+    return cases
+
+
+AUX_DOCS = [
+    ('ok', '\\relax\n\\citation{a1}\n\\citation{m1}\n\\bibstyle{unsrt}\n\\bibdata{db}\n'),
+    ('missing-cite', '\\citation{a1}\n\\citation{zz}\n\\bibstyle{unsrt}\n\\bibdata{db}\n'),
+    ('two-styles', '\\citation{a1}\n\\citation{A1}\n\\bibstyle{unsrt}\n\\bibstyle{plain}\n\\bibdata{db}\n'),
+    ('no-data', '\\citation{a1}\n\\bibstyle{unsrt}\n'),
+    ('no-db-file', '\\citation{a1}\n\\bibstyle{unsrt}\n\\bibdata{gone}\n'),
+    ('all', '\\citation{*}\n\\bibstyle{unsrt}\n\\bibdata{db}\n'),
+]
+
+CONVERT_EXPECT = {
+    ('convert', 'convert:good'): [],
+    ('convert', 'convert:bad'): [['UndefinedMacro', 1], ['DuplicateField', None], ['TokenRequired', 3]],
+    ('convert', 'convert-same:good'): [['FATAL', None]],
+    ('convert', 'convert-same:bad'): [['FATAL', None]],
+    ('convert', 'convert-suffix:good'): [['FATAL', None]],
+    ('convert', 'convert-missing:good'): [['FATAL', None]],
+    ('format', 'format:good'): [],
+    ('format', 'format:bad'): [['UndefinedMacro', 1], ['DuplicateField', None], ['TokenRequired', 3]],
+    ('format', 'format:unknown'): [['FATAL', None]],
+    ('format', 'format:missing'): [['FATAL', None]],
+}
+
+
+# ----------------------------------------------------------------------------------------------
+# the three command lines
+# ----------------------------------------------------------------------------------------------
+
+def _cli_cases(tier, rng):
+    import random
+    import props.c10 as c10
+    quick = tier == 'quick'
+    good = _db(['article', 'misc'])
+    bad = '@misc{k, title = nomacro,\n title = {t}}\n@misc{j, note }\n' + good
+    files = [['good.bib', good], ['bad.bib', bad], ['unknown.bib', _db(['unknown_type', 'misc'])], ['missing.bib', _db(['missing_field'])],
+             ['dangling.bib', _db(['dangling', 'misc'])]]
+    S = ['strict', '--strict']
+    cases = []
+
+    def cli(prog, runs, fs=files):
+        cases.append({'op': 'errcli', 'prog': prog, 'files': fs, 'runs': runs})
+    A = lambda x: ['arg', x]  # noqa: E731
+    for inp in ('good.bib', 'bad.bib'):
+        i, o = A(inp), A('out.yaml')
+        for run in ([i, o], [S, i, o], [i, S, o], [i, o, S], [S, S, i, o], [['other', '-t', 'yaml'], i, o], [['other', '--preserve-case'], S, i, o],
+                    [['other', '-f', 'bibtex'], i, o], [i], [], [i, o, o], [S], [S, i], [['rejected', '--bogus'], i, o], [S, ['rejected', '--bogus'], i, o],
+                    [['plugin_error', '-f', 'nosuchformat'], i, o], [S, ['plugin_error', '-t', 'nosuchformat'], i, o],
+                    [['info', '--version']], [['info', '--help']], [S, ['info', '--help'], i, o], [['rejected', '--bogus'], ['info', '--version']],
+                    [i, i], [S, i, i], [i, A('out.zzz')], [A('gone.bib'), o], [S, A('gone.bib'), o]):
+            cli('pybtex-convert', [run])
+    # several runs in one interpreter: error_code is never cleared, strict is reset by every main()
+    b, g, o = A('bad.bib'), A('good.bib'), A('out.yaml')
+    for runs in ([[b, o], [g, o]], [[S, b, o], [b, o]], [[b, o], [S, b, o]], [[S, g, o], [b, o], [g, o]], [[g, o], [g, o]], [[b], [g, o]],
+                 [[['rejected', '--bogus']], [b, o]], [[S, b, o], [g, o]]):
+        cli('pybtex-convert', runs)
+    for inp in ('good.bib', 'bad.bib', 'unknown.bib', 'missing.bib', 'dangling.bib'):
+        i = A(inp)
+        for out in ('out.txt', 'out.html'):
+            o = A(out)
+            for run in ([i, o], [S, i, o], [['other', '--style', 'plain'], i, o], [S, ['other', '-b', 'latex'], i, o], [i],
+                        [['other', '--style', 'nosuchstyle'], i, o], [['plugin_error', '-b', 'nosuchbackend'], S, i, o],
+                        [['plugin_error', '--label-style', 'nosuch'], i, o], [['rejected', '--min-crossrefs', 'x'], i, o]):
+                cli('pybtex-format', [run])
+    warn_bst = _bst_program([BST_FAULTS[4]])
+    for auxname, aux in AUX_DOCS:
+        for dbname, text in (('good', good), ('bad', bad), ('unknown', _db(['unknown_type', 'misc']))):
+            fs = [['doc.aux', aux], ['db.bib', text], ['unsrt.bst', warn_bst]]
+            d = A('doc.aux')
+            for run in ([d], [S, d], [A('doc')], [['other', '-l', 'python'], d], [S, ['other', '-l', 'python'], d], [['other', '--terse'], d, S],
+                        [], [d, d], [['other', '-l', 'python'], ['other', '-b', 'html'], d]):
+                cli('pybtex', [run], fs)
+    fs = [['doc.aux', AUX_DOCS[0][1]], ['db.bib', good]]
+    for f in BST_FAULTS[:24]:
+        if f[0] in ('top',):
+            continue
+        for run in ([A('doc.aux')], [S, A('doc.aux')]):
+            cli('pybtex', [run], fs + [['unsrt.bst', _bst_program([f])]])
+    # corrupted .bib inputs of the C10 generator through pybtex-convert, with and without --strict
+    sub = random.Random(rng.getrandbits(64))
+    cs = [c for c in c10.gen_cases('quick', sub, {}) if 'pre' in c]
+    for c in _sample(sub, cs, 60 if quick else 400):
+        fs = [['in.bib', c10.text_of(c)]]
+        cli('pybtex-convert', [[A('in.bib'), A('out.yaml')]], fs)
+        cli('pybtex-convert', [[S, A('in.bib'), A('out.yaml')]], fs)
+    return cases
+
+
+# ----------------------------------------------------------------------------------------------
+# context managers left in any order
+# ----------------------------------------------------------------------------------------------
+
+def _free_histories(maxlen, maxk):
+    out = []
+
+    def rec(prefix, d, k):
+        out.append(list(prefix))
+        if len(prefix) == maxlen:
+            return
+        rec(prefix + [{'o': 'enter'}], d + 1, k)
+        for j in range(min(d, maxk + 1)):
+            rec(prefix + [{'o': 'exitk', 'k': j}], d - 1, k)
+        rec(prefix + [{'o': 'report', 'k': k}], d, k + 1)
+        rec(prefix + [{'o': 'strict', 'b': False}], d, k)
+    rec([], 0, 0)
+    return out
+
+
+def _free_case(strict0, ops):
+    k = sum(1 for o in ops if o['o'] == 'report')
+    return {'op': 'errfree', 'strict0': strict0, 'errs': [_err_for(i) for i in range(k)], 'ops': ops}
+
+
+def _random_free(rng):
+    ops, d, k = [], 0, 0
+    for _ in range(rng.randint(4, 30)):
+        a = rng.choice(['enter', 'enter', 'exitk', 'exitk', 'report', 'report', 'report', 'T', 'F'])
+        if a == 'exitk' and d == 0:
+            a = 'report'
+        if a == 'enter' and d >= 5:
+            a = 'exitk'
+        if a == 'enter':
+            ops.append({'o': 'enter'})
+            d += 1
+        elif a == 'exitk':
+            ops.append({'o': 'exitk', 'k': rng.randrange(d)})
+            d -= 1
+        elif a == 'report':
+            ops.append({'o': 'report', 'k': k})
+            k += 1
+        else:
+            ops.append({'o': 'strict', 'b': a == 'T'})
+    return _free_case(rng.random() < 0.5, ops)
+
+
 def gen_cases(tier, rng, info):
     quick = tier == 'quick'
     cases = []
@@ -1216,12 +2313,30 @@ def gen_cases(tier, rng, info):
     cases += fm
     for kind, text, expect in MODE_CASES:
         cases.append({'op': 'errmodes', 'kind': kind, 'text': text})
+    n_free = 5 if quick else 6
+    fh = _free_histories(n_free, 2)
+    for ops in fh:
+        cases.append(_free_case(True, ops))
+    engine = _engine_cases(tier, rng)
+    formats = _format_cases(tier, rng)
+    clis = _cli_cases(tier, rng)
+    readers, rcounts = _reader_cases(tier, rng)
+    cases += engine + formats + clis + readers
+    for _ in range(300 if quick else 6000):
+        cases.append(_random_free(rng))
     info['exhaustive'] = True
     info['scope'] = ('errhist: all %d prefix-balanced histories of <=%d operations over %r (closed with the missing exits) x 2 start modes; '
                      'errrender: %d grid instances over all %d classes + %d TokenRequired instances = every in-range parser state of every text '
                      'of <=4 characters over the tier alphabet, both get_error_context implementations; fmtchars: all %d letter strings of <=3 over %r; '
-                     'errmodes: %d hand-made inputs with expected problem lists' % (
-                         len(hs), n_hist, ALPHABET, len(grid), 15, len(tr), len(fm), letters, len(MODE_CASES)))
+                     'errmodes: %d hand-made inputs with expected problem lists; errfree: all %d histories of <=%d operations over enter / '
+                     'exit the k-th open manager (k<=2) / report / set_strict_mode(False); engine runs: %d (every run-time fault of %d .bst '
+                     'faults x 2 databases, the real styles and the 4 Python styles x every fault entry x 2 citation lists, random combinations); '
+                     'other formats and entry points: %d (every truncation of a YAML / BibTeXML document, hand-made structural faults, convert / '
+                     'format_database / make_bibliography); command lines: %d (pybtex, pybtex-convert, pybtex-format x argv patterns incl. --strict '
+                     'in every position, wrong argument counts, rejected options, unknown plug-ins, same input and output, several runs in one '
+                     'interpreter); inputs of the C10 / C15 / C20 generators with the expected problems computed from the reader models: %r' % (
+                         len(hs), n_hist, ALPHABET, len(grid), 15, len(tr), len(fm), letters, len(MODE_CASES),
+                         len(fh), n_free, len(engine), len(BST_FAULTS), len(formats), len(clis), rcounts))
     n_rh, n_rr, n_rm = (1500, 4000, 500) if quick else (30000, 60000, 5000)
     for _ in range(n_rh):
         cases.append(_random_history(rng))
@@ -1229,6 +2344,11 @@ def gen_cases(tier, rng, info):
         cases.append(_random_render(rng))
     for _ in range(n_rm):
         cases.append(_random_modes(rng))
+    # the expensive families (command lines, engine runs, file-based readers) are spread over the stream: check.py hands the worker
+    # processes contiguous chunks
+    import random
+    random.Random(20260926).shuffle(cases)
+    _PENDING[:] = cases
     return cases
 
 
@@ -1241,7 +2361,12 @@ LEVEL_TEXT = ('Machine-checked proofs (Lean 4) over an executable model of pybte
               'error locations are snapshots; BibTeXNameFormatError is unreachable.  The model is tied to the code by a correspondence check: '
               'exhaustive over all operation histories up to a length on the real module (two ways of driving the context managers), every '
               'class enumerated from the source with argument grids and every in-range parser state over small texts, and real inputs '
-              'processed in all three modes and through the command-line wrapper.')
+              'processed in all three modes and through the command-line wrapper.  Added: the exits of the .bib / .bst / .aux reader models of '
+              'C10 / C15 / C20 are proved to be listed pybtex errors and the .bib reader is proved mode independent through its own strict run; '
+              'main() with its options (--strict, rejected options, argument count) is modelled and proved (strict option, exit status from any '
+              'state) and the three real command lines are driven in-process; the engines (BibTeX and Python), the YAML / BibTeXML readers, '
+              'convert / format_database / make_bibliography are run in the three modes; the expected problems of the inputs of the C10 / C15 / '
+              'C20 generators and of the BibTeX-engine runs are computed from the reader / interpreter models, not from the capture run.')
 LEVEL_NOTE = ('Trusted: Lean kernel; axioms propext/Classical.choice/Quot.sound only; the hand-written model corresponds to the code only as '
               'far as the differential check explores.  Modelled, not verified: str.splitlines separators, repr() of str (exact below U+0100 '
               'and on Unicode spaces), int formatting, decoding of byte file names (done by the harness); stderr plumbing, sys.exit and optparse '
@@ -1250,5 +2375,11 @@ LEVEL_NOTE = ('Trusted: Lean kernel; axioms propext/Classical.choice/Quot.sound 
               'parsers (no parser model here; C10/C15/C20 own those).  TokenRequired rendering is proved for parser states in range '
               '(decidable CtxInfo.WF) - that real parsers only produce such states is checked, not proved.  Contexts are assumed to be left '
               'in LIFO order.  The model follows the tree WITH proposed_fixes C16-1 (capture restores the previous list), C16-2 '
-              '(PluginNotFound without assert) and C20-1/2 (AuxDataError); SkipEntry containment is by the shape of one try/except, '
+              '(PluginNotFound without assert), C20-1/2 (AuxDataError) and C16-3 ... C16-7 (unknown entry type, YAML / BibTeXML readers, '
+              'unrenderable chr.to.int$ / int.to.chr$ errors, file objects as file names); SkipEntry containment is by the shape of one try/except, '
               'carried by the model only as a type-level statement.')
+
+
+EXPECT.update({(k, t): e for k, t, e in READER_CASES})
+EXPECT.update(_py_expect())
+EXPECT.update(CONVERT_EXPECT)
